@@ -9,7 +9,7 @@
    clear, at a time t with t_insert <= t < t_insert + min(max_ttl, lifetime its TTLs allow), and all
    TTLs the caller reads equal max(0, ttl - (t - t_insert)). *)
 From CAres.Base Require Import CInt.
-From CAres.Core Require Import QCache QCacheSpec QCache_proofs.
+From CAres.Core Require Import QCache QCacheSpec QCache_proofs SrvUpdate SrvUpdate_proofs.
 From CAres.Gen Require Import Consts LeafFns.
 
 Theorem C08_hit_sound : forall mx ops,
@@ -36,6 +36,35 @@ Theorem C08_flush_empties : forall mx t hist c,
   InvQC mx t hist c -> c_exp (qc_flush c) = [] /\ c_tab (qc_flush c) = [].
 Proof. exact flush_empty. Qed.
 Print Assumptions C08_flush_empties.
+
+(* ares_servers_update (no ARES_FLAG_PRIMARY): afterwards the channel holds exactly the new
+   configuration, and if the cache is NOT flushed the configured sequence of (address, udp port,
+   tcp port) is the previous one - i.e. every edit that changes the list, a pure reorder included,
+   flushes.  [denotes cur C]: the servers represent the sequence C (idx = position). *)
+Theorem C08_flush_on_list_change : forall cu ct cur C new cur' changed,
+  denotes cur C -> servers_update cu ct false cur new = (cur', changed) ->
+  denotes cur' (dedupk [] (map (resolve cu ct) new)) /\
+  (changed = false -> dedupk [] (map (resolve cu ct) new) = C).
+Proof. exact update_flushes_on_change. Qed.
+Print Assumptions C08_flush_on_list_change.
+
+Theorem C08_flush_on_list_change_contrapositive : forall cu ct cur C new cur' changed,
+  denotes cur C -> servers_update cu ct false cur new = (cur', changed) ->
+  dedupk [] (map (resolve cu ct) new) <> C -> changed = true.
+Proof. exact flush_on_list_change. Qed.
+Print Assumptions C08_flush_on_list_change_contrapositive.
+
+(* add-only, remove-only, replace, reorder, port change flush; identical / repeated entries do not *)
+Theorem C08_flush_edit_examples :
+  snd (servers_update 0 0 false ex_cur [exA; exB; exC]) = true /\
+  snd (servers_update 0 0 false ex_cur [exA]) = true /\
+  snd (servers_update 0 0 false ex_cur [exA; exC]) = true /\
+  snd (servers_update 0 0 false ex_cur [exB; exA]) = true /\
+  snd (servers_update 0 0 false ex_cur [exA; mkSc 2 5353 0]) = true /\
+  snd (servers_update 0 0 false ex_cur [exA; exB]) = false /\
+  snd (servers_update 0 0 false ex_cur [exA; exA; mkSc 2 53 53; exB]) = false.
+Proof. exact ex_edits. Qed.
+Print Assumptions C08_flush_edit_examples.
 
 (* the generated ares_dns_rr_get_ttl ages every TTL by the record's ttl_decrement, never below 0 *)
 Theorem C08_ttl_aged : forall ttl dec,
